@@ -178,6 +178,25 @@ def match_known(pid, sig, known):
     return None
 
 
+def _alphabet_summary(tier, seed):
+    """sizes and members of the shared finite alphabets for this tier/seed (check-specific alphabets are described in 'rule')."""
+    try:
+        from . import alphabets as A
+
+        return {
+            "translations_2d": A.T(2, tier, seed),
+            "translations_3d": A.T(3, tier, seed),
+            "angles": A.ANG(tier, seed),
+            "unit_quaternions": A.Q(tier, seed),
+            "n_poses": {k: len(A.poses(k, tier, seed)) for k in ("R2", "R3", "SE2", "SE3")},
+            "information_matrices": [name for name, _ in A.OMEGA(3, tier, seed)],
+            "special_ids": A.IDS_SPECIAL,
+            "seed_moves_only_generic_members": True,
+        }
+    except Exception as ex:  # pragma: no cover
+        return {"error": repr(ex)}
+
+
 def run_check(mod, tier, seed, workers=None, deadline_s=None):
     t0 = time.time()
     pid = mod.ID
@@ -308,7 +327,7 @@ def run_check(mod, tier, seed, workers=None, deadline_s=None):
         "max_err_ratio": (total.max_ratio if math.isfinite(total.max_ratio) else 1e308),
         "max_err_ratio_case": total.max_ratio_case,
         "bounds": (meta.get("bounds", {}) or {}).get(tier, meta.get("bounds", {})),
-        "alphabet": meta.get("alphabet", {}),
+        "alphabet": meta.get("alphabet") or _alphabet_summary(tier, seed),
         "known_findings_matched": {kid: n for kid, (k, n) in known_hits.items()},
         "workers": workers,
         "cpu_s": round(float(total.extra.pop("_cpu_s", 0.0)), 2),
